@@ -25,7 +25,7 @@ def st_jwt(ex, st, a, ins):
     tok = a[1]; key = 'jwt(' + z3.simplify(tok).sexpr()[:60] + ')'
     if key not in st.memo:
         n = len([k for k in st.memo if k.startswith('jwt(')])
-        st.memo[key] = {'bits': z3.BitVec(f'jwt{n}.bits', 64), 'user': z3.String(f'jwt{n}.user'), 'exp': z3.Int(f'jwt{n}.exp'), 'iat': z3.Int(f'jwt{n}.iat'), 'ok': z3.Bool(f'jwt{n}.verifies'), 'tok': tok}
+        st.memo[key] = {'bits': z3.BitVec(f'jwt{n}.bits', 64), 'user': z3.String(f'jwt{n}.user'), 'exp': z3.BitVec(f'jwt{n}.exp', lib.TW), 'iat': z3.BitVec(f'jwt{n}.iat', lib.TW), 'ok': z3.Bool(f'jwt{n}.verifies'), 'tok': tok}
     c = st.memo[key]
     def ok(s):
         s.ev('cred', kind='jwt', verified=z3.BoolVal(True), bits=c['bits'], user=c['user'], exp=c['exp'], iat=c['iat'], token=tok)
@@ -38,14 +38,14 @@ def st_jwt(ex, st, a, ins):
 
 def st_kmsigned(ex, st, a, ins):
     """getUsernameIfKeymasterSigned(chains) -> (user, notBefore, err): user != "" only for a chain signed by a keymaster key"""
-    u = z3.String('kmcert.user'); nb = z3.Int('kmcert.notBefore'); okb = z3.Bool('kmcert.signedByKeymaster')
+    u = z3.String('kmcert.user'); nb = z3.BitVec('kmcert.notBefore', lib.TW); okb = z3.Bool('kmcert.signedByKeymaster')
     def ok(s):
         s.pc.append(u != z3.StringVal(''))
         s.ev('cred', kind='kmcert', verified=z3.BoolVal(True), bits=bv(KMX509), user=u, exp=None, iat=nb)
         return (u, TimeV(nb), nilerr())
     return fork_results(ex, st, ins, [
-        (z3.And(z3.Not(okb), z3.Bool('kmcert.err')), lambda s: (z3.StringVal(''), TimeV(z3.IntVal(lib.ZERO_NS)), mk_error(s, z3.StringVal('km'), 'kmcert'))),
-        (z3.And(z3.Not(okb), z3.Not(z3.Bool('kmcert.err'))), (z3.StringVal(''), TimeV(z3.IntVal(lib.ZERO_NS)), nilerr())),
+        (z3.And(z3.Not(okb), z3.Bool('kmcert.err')), lambda s: (z3.StringVal(''), TimeV(lib.T(lib.ZERO_NS)), mk_error(s, z3.StringVal('km'), 'kmcert'))),
+        (z3.And(z3.Not(okb), z3.Not(z3.Bool('kmcert.err'))), (z3.StringVal(''), TimeV(lib.T(lib.ZERO_NS)), nilerr())),
         (okb, ok)])
 
 
@@ -56,7 +56,7 @@ def st_iprestricted(ex, st, a, ins):
         now = lib.t_now(ex, s, [], ins)
         s.ev('cred', kind='ipcert', verified=z3.BoolVal(True), bits=bv(IPCERT), user=u, exp=None, iat=now.ns)
         return (u, now, nilerr(), nilerr())
-    Z = TimeV(z3.IntVal(lib.ZERO_NS))
+    Z = TimeV(lib.T(lib.ZERO_NS))
     return fork_results(ex, st, ins, [
         (e, lambda s: (z3.StringVal(''), Z, nilerr(), mk_error(s, z3.StringVal('iperr'), 'ipcert'))),
         (z3.And(z3.Not(e), z3.Not(inside)), lambda s: (z3.StringVal(''), Z, mk_error(s, z3.StringVal('Bad incoming ip addres'), 'ipuser'), nilerr())),
